@@ -535,15 +535,15 @@ Local Open Scope R_scope.
 
 
 def select_entries(ev, rng, tier):
-    """which numbers get a Coq goal.  thorough: all.  quick: 2 states, 2 actions each (drawn from ctx.rng)
+    """which numbers get a Coq goal.  thorough: all.  quick: 2 states, 2 + 1 actions (drawn from ctx.rng)
     PLUS every entry the 60-digit evaluation finds outside its tolerance (so a wrong number always meets a
     goal that cannot be proved; the evaluation itself never accepts anything)."""
     if tier != "quick":
         return None
     states = rng.sample(range(ev.nS), min(2, ev.nS))
     sel = {"s": set(states), "sa": set()}
-    for s in states:
-        for a in rng.sample(range(ev.nA), min(2, ev.nA)):
+    for k, s in enumerate(states):
+        for a in rng.sample(range(ev.nA), min(2 - k, ev.nA)):      # 2 actions in the first state, 1 in the second
             sel["sa"].add((s, a))
     for kind, s, a, _, _, _ in ev.mp_failures()[:6]:
         sel["s"].add(s)
@@ -669,7 +669,7 @@ def run(ctx):
         cases = [ctx.replay_case["detail"]["case"]]
     else:
         cases = gen_cases(ctx.rng, ncases)
-    impl = ctx.impl("c19_impl.py", {"cases": cases}, shards=min(8, ctx.jobs) if tier == "quick" else min(16, ctx.jobs))["results"]
+    impl = ctx.impl("c19_impl.py", {"cases": cases}, shards=min(4, ctx.jobs) if tier == "quick" else min(16, ctx.jobs))["results"]
 
     evals, mods = {}, []
     stats = {"converged": 0, "not_converged": 0, "temperature_given": 0, "temperature_float32": 0,
@@ -795,7 +795,7 @@ def run(ctx):
                 "same labels and after the MDP's cached matrices were read); boundary (gamma = 0 as int and float, gamma = 1-2^-20, probabilities 2^-30 and "
                 "action rows 2^-30 apart, prior entries 2^-20, one state, rewards x1e3 and x1e5); explicit initial_policy (one-hot / random, clamp on and off); "
                 "iteration caps 1 and 2; non-contiguous + requires_grad tensors; repeated call on the same tensors.  Goals: thorough = one interval-proved goal "
-                "per number (q, pi: states x actions; v, Z>0: states) of every CONVERGED result; quick = 2 states x 2 actions per case plus every entry the "
+                "per number (q, pi: states x actions; v, Z>0: states) of every CONVERGED result; quick = 2 states with 2 + 1 actions per case plus every entry the "
                 "60-digit evaluation finds out of tolerance.  distinct = structural hash of the case; non-trivial = converged with >= 2 actions",
         "samples": sample,
         "cases": len(cases), "goals": ngoals, "goals_proved": nproved, "cases_with_unproved_goal": len(bad_cases),
